@@ -86,7 +86,6 @@ VERIF_SEED only decides, in the quick tier, which of the six rotation angles are
 both representations and does not depend on it.  Nothing is random.
 """
 import math
-import itertools
 from fractions import Fraction
 
 import numpy as np
